@@ -298,10 +298,10 @@ def judge_setup(case):
 
 
 SUBS = [
-    Sub("realisation", judge_realisation, realisation_case(), quick=400, thorough=8000,
+    Sub("realisation", judge_realisation, realisation_case(), quick=400, thorough=16000,
         rule="H = O*Gamma exact rank 2m (random similarity, random G); SSI_fast and legacy SSI -> SSI_poles / ac2mp at order 2m give m conjugate pairs equal to the truth"),
-    Sub("setup_cov_mm", judge_setup, setup_case("cov_mm"), quick=400, thorough=8000,
+    Sub("setup_cov_mm", judge_setup, setup_case("cov_mm"), quick=400, thorough=16000,
         rule="noise-free free decay through SingleSetup + SSIcov(cov_mm): pole tables at order 2m and mpe(order=2m) equal the truth"),
-    Sub("setup_dat", judge_setup, setup_case("dat"), quick=400, thorough=8000,
+    Sub("setup_dat", judge_setup, setup_case("dat"), quick=400, thorough=16000,
         rule="noise-free free decay through SingleSetup + SSIdat: pole tables at order 2m and mpe(order=2m) equal the truth"),
 ]
